@@ -448,6 +448,10 @@ def handleExport (ws : List String) : String :=
   | some [a, b] =>
     let fh : Nat → Nat := fun i => if i == 3224 then a else if i == 3225 then b else 0
     s!"{Export.exportFormat fh} {Export.exportFileHeader fh 3224} {Export.exportFileHeader fh 3225}"
+  | some [a, b, c, d, ns, t] =>
+    -- with the two bytes of the extended-header count: also the file offset of trace `t` (traces of `ns` samples)
+    let fh : Nat → Nat := fun i => if i == 3224 then a else if i == 3225 then b else if i == 3504 then c else if i == 3505 then d else 0
+    s!"{Export.exportFormat fh} {Export.exportFileHeader fh 3224} {Export.exportFileHeader fh 3225} {Export.exportTraceOffset fh ns t}"
   | _ => "bad-op"
 
 /-- `window N1 A0 A1 B0 B1`: for every header slot `0 … |w|−1` the source trace ordinal stored there (−1 = never written),
